@@ -15,12 +15,6 @@ def cmparr(x,y):
     return c
                 
 
-def _int2float(x):
-    try:
-        return float(x)
-    except OverflowError: ## an int beyond the range of a double ranks with the infinity of its sign
-        return float('inf') if x > 0 else float('-inf')
-
 def cmp(x,y):
     """
     Implements lexcompare while allowing for comparison of different types.
@@ -52,10 +46,8 @@ def cmp(x,y):
     if x is y:
         return 0
     x,y = as_primitive([x,y])
-    x = _int2float(x) if isinstance(x, int) and not isinstance(x, bool) else x
-    y = _int2float(y) if isinstance(y, int) and not isinstance(y, bool) else y
-    tx = str(type(x))
-    ty = str(type(y))
+    tx = str(float if isinstance(x, int) and not isinstance(x, bool) else type(x)) ## an int ranks as a float; the values themselves are compared exactly
+    ty = str(float if isinstance(y, int) and not isinstance(y, bool) else type(y))
     if tx<ty:
         return -1
     elif ty<tx:
